@@ -164,9 +164,12 @@ def draw(rng):
         elif r < 0.42:
             # an input whose construction can fail as well (not the failing component's own output, nor
             # anything built from it: pavexc cannot generate code for that)
-            bad = set()
+            # (for a `pavex::Error` handler the failing component can be any of them: infallible inputs only)
+            bad = set(range(n))
             if target[0] == "c":
                 bad = {j for j in range(n) if target[1] in _deps(ctors, j)}
+            elif target[0] in "mh":
+                bad = set()
             ins = [[j, "ref"] for j, _ in comp_ins(1, [j for j in range(n) if j not in safe and j not in bad])]
         else:
             ins = []
